@@ -1,5 +1,6 @@
 """catalogue of public codec entry points for the C19 history check (native, bounded): name -> (callable, argument spec).
-Argument spec items: ("bits", [lengths]) | ("bytes", [lengths]) | ("int", nbits) | ("enum", EnumClass) | ("const", value)"""
+Argument spec items: ("bits", [lengths]) | ("bytes", [lengths]) | ("int", nbits) | ("enum", EnumClass) | ("const", value) |
+("pick", [hex strings]): one of these octet strings, now and then with one octet changed"""
 import enum
 from bitarray import bitarray
 
@@ -125,6 +126,72 @@ CATALOGUE = {
     "byteswap_bytes": (byteswap_bytes, [(Y, [0, 1, 2, 5, 12])]),
     "bytes_to_bits": (bytes_to_bits, [(Y, [0, 3])]),
 }
+
+
+# ---- Hytera / Motorola protocol PDUs: well-formed frames (literal, produced once by the library's own builders and pasted
+# here) - a random octet string almost never parses, so the histories draw from these and from one-octet mutations of them
+from okdmr.dmrlib.hytera.pdu.hdap import HDAP
+from okdmr.dmrlib.hytera.pdu.hrnp import HRNP
+from okdmr.dmrlib.hytera.pdu.hstrp import HSTRP
+from okdmr.dmrlib.hytera.pdu.radio_control_protocol import RadioControlProtocol, RCPOpcode
+from okdmr.dmrlib.hytera.pdu.location_protocol import LocationProtocol, LocationProtocolSpecificService
+from okdmr.dmrlib.hytera.pdu.radio_ip import RadioIP
+from okdmr.dmrlib.motorola.text_messaging_service import TextMessagingService
+from okdmr.dmrlib.motorola.automatic_registration_service import AutomaticRegistrationService
+from okdmr.dmrlib.motorola.mbxml import MBXML
+from okdmr.dmrlib.motorola.lrrp import LRRP
+
+HDAP_FRAMES = ['02c71005000205010e013f03', '02c7100300010b014b03', '02c710070003050001010b003f03', '02c7100100005a03', '0241080500013b3823004d03', '02c8b003000b0102a903', '0234120300010203e303',
+               '0252080e0000010000000200000001034f4b31f803', '11000300040a000064bd03', '91008000090a000064000000012c0e03', '88a00100080000004d0a0000092903',
+               '08a00200320000004e0a0000090000413031303230333036303532344e343830372e303338304530313133312e30303030302e35303834f303',
+               '08a00200320000004f0a00000900004130313032303330363031383053303030312e353030305730303030302e3030303131322e0000009803',
+               '0980a10016000000050a0000020a000001680065006c006c006f00cb03', '0940b100140002000000060a0000020a000001277d25600102e203', '0940be00110001000000070a0000020a000001a0b009ab03',
+               '0900a2000d000000050a0000020a000001006703']
+HRNP_FRAMES = ['7e040000201000010018fcfe02c71005000205010e013f03', '7e040000201000020016f90302c7100300010b014b03', '7e04000020100003001afef802c710070003050001010b003f03',
+               '7e040000201000040014f50702c7100100005a03', '7e040000201000050018ac4b0241080500013b3823004d03', '7e04000020100006001604f302c8b003000b0102a903',
+               '7e040000201000070016688f0234120300010203e303', '7e040000201000080021cf1b0252080e0000010000000200000001034f4b31f803', '7e0400fe20100000000c60e1', '7e0400fa20100009000c60dc']
+HSTRP_FRAMES = ['32420020000183040001869f04010102c71005000205010e013f03', '32420020000283040001869f04010102c7100300010b014b03', '32420020000383040001869f04010102c710070003050001010b003f03',
+                '32420020000483040001869f04010102c7100100005a03', '32420020000583040001869f0401010241080500013b3823004d03', '32420020000683040001869f04010102c8b003000b0102a903', '324200040000',
+                '3242000000030241080500013b3823004d03']
+TMS_FRAMES = ['000aa0026162812468006900', '00039f0000', '000490017803', '0005e000056f6b']
+ARS_FRAMES = ['000c802007323330383135350000', '001205013106c5be6c75c5a5056865736c6f1080', '000104', '0003011080', '00028f03']
+MBXML_FRAMES = ['050822042468ace05162', '070c22042468ace0390503515355', '110722042468ace038', '040e05054150434f22042468ace05362', '070522011137c801', '07042201113807042201223 8'.replace(' ', ''),
+                '1407220111515762150a2201113465006b01', '0608036162632201113806050122012238']
+
+
+def _bytes_pdu(parse):
+    def f(d):
+        p = parse(d)
+        return (p, p.as_bytes() if p is not None else None)
+    return f
+
+
+def _mbxml(d):
+    docs = MBXML.from_bytes(d)
+    return (docs, b"".join(MBXML.as_bytes(x) for x in docs))
+
+
+def _lrrp_assembled(code):
+    from okdmr.dmrlib.motorola.mbxml import MBXMLDocumentIdentifier as DI
+
+    d = LRRP(document_id=DI.LRRP_ImmediateLocationReport_NCDT)
+    d.parts.append(d.get_token(name=0x22, value=b"\x24\x68", attributes={}, is_request=False))
+    d.parts.append(d.get_token(name=0x39, value=b"QSU", attributes={"result-code": code}, is_request=False))
+    return MBXML.as_bytes(d)
+
+
+CATALOGUE.update({
+    "HDAP.from_bytes": (_bytes_pdu(HDAP.from_bytes), [("pick", HDAP_FRAMES)]),
+    "HRNP.from_bytes": (_bytes_pdu(HRNP.from_bytes), [("pick", HRNP_FRAMES)]),
+    "HSTRP.from_bytes": (_bytes_pdu(HSTRP.from_bytes), [("pick", HSTRP_FRAMES)]),
+    "RadioControlProtocol(StatusChangeNotificationRequest, defaults)": (lambda: RadioControlProtocol(opcode=RCPOpcode.StatusChangeNotificationRequest).as_bytes(), []),
+    "RadioControlProtocol(CallRequest, defaults)": (lambda t: RadioControlProtocol(opcode=RCPOpcode.CallRequest, target_id=t).as_bytes(), [("int", 24)]),
+    "LocationProtocol(StandardRequest, defaults)": (lambda r: LocationProtocol(opcode=LocationProtocolSpecificService.StandardRequest, request_id=r, radio_ip=RadioIP(7)).as_bytes(), [("int", 32)]),
+    "TextMessagingService.from_bytes": (_bytes_pdu(TextMessagingService.from_bytes), [("pick", TMS_FRAMES)]),
+    "AutomaticRegistrationService.from_bytes": (_bytes_pdu(AutomaticRegistrationService.from_bytes), [("pick", ARS_FRAMES)]),
+    "MBXML.from_bytes": (_mbxml, [("pick", MBXML_FRAMES)]),
+    "LRRP.get_token + MBXML.as_bytes": (_lrrp_assembled, [("int", 7)]),
+})
 
 
 def extend(name, fn, spec):
